@@ -75,6 +75,8 @@ def jobs(tier):
                     continue
                 out.append(("v%d.flat2.%s.%s" % (version, layout, via), "job",
                             dict(version=version, shape="flat2", P=16384, K=1, layout=layout, decoy="none", via=via)))
+    for version in (1, 2, 3):
+        out.append(("v%d.repaired-source-then-rebuild-again" % version, "job_repaired", dict(version=version, repaired=True)))
     out.extend(rw.matrix_rows(tier, "C13"))
     return out
 
@@ -100,6 +102,41 @@ def job(E, version, shape, P, K, layout, decoy, via="assembler", tname="name", _
         E.witnesses["decoy listed first"] = True
     if decoy == "none":
         E.witnesses.setdefault("decoy listed first", True)
+
+
+def job_repaired(E, version, repaired=True, _mutants=None):
+    """A first rebuild finds only a damaged same-sized copy of one file; the copy is then replaced in place by the
+    intact file and rebuild runs again in the same process: now every file has an intact copy and must be restored."""
+    from symx.afs import AFS
+    from symx.loader import BenTok
+    from harness import recheck as rk
+    from symx.abuf import ABuf
+    P = 16384
+    fs = AFS(order="reversed")
+    sizes = {"name/a": E.int("s0", 1, 2 * P), "name/b": E.int("s1", 1, P)}
+    E.note("shape", "flat2")
+    o = E.int("dmg_off", 0, None)
+    E.assume(o < sizes["name/a"])
+    fs.add_content("/src/a", ABuf.of([("F", ("f", 0), 0, o), ("G", ("flip", 0), 0, 1), ("F", ("f", 0), o + 1, sizes["name/a"] - o - 1)]))
+    fs.add("/src/b", ("f", 1), sizes["name/b"])
+    meta = rk.ref_meta(E, version, "flat2", sizes, P, False, True)
+    fs.add_token("/t/m.torrent", BenTok(meta))
+    fs.mkdirs("/dest")
+    w = World(fs, mutants=_mutants)
+    ok, _ = rw.run_rebuild(E, w, ["/t/m.torrent"], ["/src"], "/dest", "C13.repaired.first")
+    if not ok:
+        return
+    fs.add("/src/a", ("f", 0), sizes["name/a"])              # the intact file, at the same path, same size
+    # into a fresh destination: what the first run left in /dest (possibly a full-length wrong file, which C14 forbids
+    # to touch) is not the subject here
+    fs.mkdirs("/dest2")
+    ok, count = rw.run_rebuild(E, w, ["/t/m.torrent"], ["/src"], "/dest2", "C13.repaired")
+    if not ok:
+        return
+    expected = {"/dest2/name/a": ("name/a", ABuf.file(("f", 0), sizes["name/a"])), "/dest2/name/b": ("name/b", ABuf.file(("f", 1), sizes["name/b"]))}
+    rw.check_restored(E, fs, sizes, expected, None, "C13.repaired")
+    for k in WITNESSES:
+        E.witnesses.setdefault(k, True)
 
 
 def job_batch(E, _mutants=None):
@@ -135,7 +172,38 @@ def job_batch(E, _mutants=None):
         E.witnesses.setdefault(k, True)
 
 
+def _replay_repaired(params, model, workdir, seed):
+    import io
+    import contextlib
+    P = 16384
+    s0, s1 = int(model["s0"]), int(model["s1"])
+    a, b = refconc.content(("f", 0), s0, seed), refconc.content(("f", 1), s1, seed)
+    refconc.write_file(workdir + "/src/a", refconc.flip(a, int(model.get("dmg_off", 0))))
+    refconc.write_file(workdir + "/src/b", b)
+    refconc.write_file(workdir + "/t/m.torrent", refconc.bencode(refconc.build_meta([(["a"], a), (["b"], b)], P, params["version"])))
+    os.makedirs(workdir + "/dest")
+    mods = cr.real_torrentfile()
+    try:
+        with contextlib.redirect_stdout(io.StringIO()):
+            mods["torrentfile.rebuild"].Assembler([workdir + "/t/m.torrent"], [workdir + "/src"], workdir + "/dest").assemble_torrents()
+            refconc.write_file(workdir + "/src/a", a)
+            os.makedirs(workdir + "/dest2")
+            mods["torrentfile.rebuild"].Assembler([workdir + "/t/m.torrent"], [workdir + "/src"], workdir + "/dest2").assemble_torrents()
+    except Exception as ex:  # noqa: BLE001
+        return ["C13.repaired.no-exception: %s: %s" % (type(ex).__name__, ex)]
+    bad = []
+    for rel, d in (("a", a), ("b", b)):
+        full = workdir + "/dest2/name/" + rel
+        if not os.path.isfile(full):
+            bad.append("C13.repaired.file-present:%s" % rel)
+        elif open(full, "rb").read() != d:
+            bad.append("C13.repaired.file-content:%s" % rel)
+    return bad
+
+
 def replay(params, model, notes, workdir, seed):
+    if params.get("repaired"):
+        return _replay_repaired(params, model, workdir, seed)
     if "shape" not in params:
         return _replay_batch(model, workdir, seed)
     # listing order of the decoy directory is part of the model: realise it by naming (A-decoy / zz-decoy sort
